@@ -21,6 +21,10 @@ CHECKS = {
    technique="TLA+ spec StreamSelect.tla (token-driven reader model with partial tree, candidate marking, final check, pruning vs. whole-document outermost selection), checked by TLC on every small document x xpath; emitted cases replayed on the real XML/JSON stream readers; random runs validated by TLC (Trace_StreamSelect.tla)",
    text="TLC evaluates, for every XML-shaped document with <=3 (thorough: 4) nodes and every xpath of the property's class with <=2 (3) steps and 7 predicate forms, the reader state machine transcribed from xmlreader.go/jsonreader.go against whole-document outermost selection, plus pruning and candidate-identity invariants; each case is replayed on the real XMLStreamReader and JSONStreamReader, and the real engine's whole-document result validates the specification's xpath semantics on every case (mismatch = exit 2). Random documents up to 40 nodes are validated by TLC evaluating the reference on the logged case.",
    note="Trusted: TLC, the XML/JSON renderers of the harness. Document payloads are small alphabets; arrays/numbers in JSON are covered by C08, not here."),
+ "C02": dict(cat="model_checking", design="5/C02",
+   technique="TLA+ spec Eval.tla (documented evaluation RefEval vs. cached evaluator ImplEval with the code's cache key) checked by TLC on all small declaration trees x records; TLC-emitted expectations replayed on the real Transform in three renderings (inline / templates / xpath_dynamic) x XML/JSON; random larger cases validated by TLC (Trace_Eval.tla)",
+   text="TLC evaluates for every declaration tree with <=3 (thorough: 4, sampled) nodes over 34 node variants and every record with <=3 nodes, plus directed families for cache-key collisions and array order, both the documented denotational evaluation and the evaluator with its result cache, and requires them equal (cache hits and visiting order invisible). Every case's expected JSON is replayed on the real NewSchema/NewTransform/Read with the tree rendered inline, with every subtree as a template and with xpath_dynamic, for XML and JSON input. Random trees up to 10 nodes are checked by TLC evaluating the reference on the logged case.",
+   note="Trusted: TLC, the schema/record renderers. Payload alphabet is tiny; types are none/int; custom_func is concat; kept-empty values compared modulo rendering. CSV/fixed-length/EDI records reach ParseNode as the same node trees (C05/C06 bind those readers)."),
 }
 
 def main():
